@@ -31,6 +31,7 @@
 #define protected public
 #include "TasmanianSparseGrid.hpp"
 #include "tsgRuleLocalPolynomial.hpp"
+#include "tsgIndexManipulator.hpp"
 #undef private
 #undef protected
 
@@ -82,6 +83,14 @@ int main(int argc, char **argv) {
             else if (op == "addvalues") { MultiIndexSet o = sortedSet(d, ints(m["old:"])), n = sortedSet(d, ints(m["new:"])); std::vector<double> v = dbls(m["vals:"]), nv = dbls(m["newvals:"]);
                 StorageSet st(1, (int) v.size(), std::move(v)); st.addValues(o, n, nv.data()); for (size_t i = 0; i < st.getNumOutputs() * (size_t) (o.getNumIndexes() + n.getNumIndexes()); i++) printf(" %a", st.getValues(0)[i]); }
             printf("\n");
+        } else if (t[0] == "lset") { // lset <id> <d> <offset> w: i.. ll: i..   (tensor selection, contour type_level)
+            std::string id = t[1]; size_t d = (size_t) atoi(t[2].c_str()); int off = atoi(t[3].c_str()); auto m = keyed(t, 4);
+            MultiIndexSet s = MultiIndexManipulations::selectTensors(d, off, type_level, [](int l) -> int { return l; }, ints(m["w:"]), ints(m["ll:"]));
+            printf("r %s", id.c_str()); for (int v : s.indexes) printf(" %d", v); printf("\n");
+        } else if (t[0] == "boxfull") { // boxfull <id> <d> ll: i.. a: i..
+            std::string id = t[1]; size_t d = (size_t) atoi(t[2].c_str()); auto m = keyed(t, 3);
+            MultiIndexSet a = sortedSet(d, ints(m["a:"]));
+            printf("r %s %d\n", id.c_str(), (int) MultiIndexManipulations::isLimitsBoxFull(ints(m["ll:"]), a));
         } else if (t[0] == "rlint") {
             printf("%s\n", line.c_str()); int mp = atoi(t[2].c_str());
             if (t[1] == "pwc") rlint<RuleLocal::erule::pwc>(mp); else if (t[1] == "localp") rlint<RuleLocal::erule::localp>(mp);
